@@ -87,6 +87,7 @@ def run(chk: core.Check, tier: str, seed: int) -> None:
             recs.append(impl.rec_find(jp, f"$.arr[?{e}]", root, env=nd_env, edoc=e_root))
         recs.append(impl.rec_find(jp, f"$[?{e}]", root_arr, env=nd_env, edoc=e_arr))
         recs.append(impl.rec_find(jp, f"$.arr[?{e}, 0, ?{e}]", root, env=nd_env, edoc=e_root))
+    recs += common.inplace_edit_records(jp, common.ROOT_QUERIES)
     n_sys = len(recs)
     n_rand = 3000 if tier == "quick" else 80000
     for k in range(n_rand):
